@@ -287,8 +287,11 @@ def run_unit(unit, tier, seed, known):
             def setup3(I, scope, cls=cls):
                 scope.set('self', I.alloc(cls, {}))
                 if scope.has('test') and isinstance(scope.lookup('test'), SObj) and cls not in RESULT_FIELDS:
-                    ds = I.alloc('DsRef', {'size': I.fresh(INT, 'nbins')})
+                    nb = I.fresh(INT, 'nbins')
+                    ds = I.alloc('DsRef', {'size': nb})
                     I.setfield(scope.lookup('test'), 'dsref', ds)
+                    # two compared datasets of the same size: the number of hypotheses is the number of bins, whatever the number of datasets
+                    I.setfield(scope.lookup('test'), 'datasets', [I.alloc('DsRef', {'size': nb}) for _ in range(2)])
             out.append(D(verify_function(w, c_init(cls), setup=setup3)))
         return {'functions': out}
     out = []
